@@ -59,3 +59,22 @@ pub fn table_id(db: &crate::Database, schema: &str, table: &str) -> Option<u32> 
         .find(|(_, (s, t))| s == schema && t == table)
         .map(|(id, _)| *id)
 }
+
+/// Number of page images the most recent `COMMIT` of this handle put into its own log payload
+/// (0 = it found nothing dirty; `u64::MAX` = chunked commit path). Keyed by the handle's address.
+static COMMIT_PAYLOAD: std::sync::Mutex<Vec<(usize, u64)>> = std::sync::Mutex::new(Vec::new());
+
+pub fn note_commit_payload(db: &crate::Database, pages: u64) {
+    let key = db as *const crate::Database as usize;
+    let mut g = COMMIT_PAYLOAD.lock().unwrap_or_else(|e| e.into_inner());
+    match g.iter_mut().find(|(k, _)| *k == key) {
+        Some(e) => e.1 = pages,
+        None => g.push((key, pages)),
+    }
+}
+
+pub fn last_commit_payload(db: &crate::Database) -> Option<u64> {
+    let key = db as *const crate::Database as usize;
+    let g = COMMIT_PAYLOAD.lock().unwrap_or_else(|e| e.into_inner());
+    g.iter().find(|(k, _)| *k == key).map(|(_, n)| *n)
+}
